@@ -75,11 +75,12 @@ type Explorer struct {
 	shard        int
 	random       *rand.Rand
 	LockEdges    map[string]LockEdge
+	vmOnly       map[string]bool
 	lastObserves []string
 }
 
 func NewExplorer(vm *VM, cfg *RunCfg) *Explorer {
-	ex := &Explorer{vm: vm, cfg: cfg, PathKinds: map[string]int{}, Violations: map[string]*Violation{}, Reached: map[string]int{}, Asserts: map[string]int{}, Funcs: map[string]bool{}, stubsUsed: map[string]int{}}
+	ex := &Explorer{vm: vm, cfg: cfg, PathKinds: map[string]int{}, Violations: map[string]*Violation{}, Reached: map[string]int{}, Asserts: map[string]int{}, Funcs: map[string]bool{}, stubsUsed: map[string]int{}, vmOnly: map[string]bool{}}
 	vm.ex = ex
 	return ex
 }
@@ -516,6 +517,7 @@ type Report struct {
 	MaxTraceLen  int
 	Stubs        map[string]int
 	LockEdges    map[string]LockEdge
+	VMOnly       map[string]bool
 }
 
 func (ex *Explorer) Run(runPath func() *PathResult) *Report {
@@ -602,7 +604,7 @@ func (ex *Explorer) Run(runPath func() *PathResult) *Report {
 	}
 	r := &Report{Cfg: ex.cfg, Paths: ex.Paths, PathKinds: ex.PathKinds, Inconclusive: ex.Inconclusive, Reached: ex.Reached,
 		Asserts: ex.Asserts, Obligations: ex.Obligations, Discharged: ex.Discharged, DecisionPts: ex.DecisionPts, Steps: ex.Steps,
-		Samples: ex.Samples, Complete: complete, MaxTraceLen: ex.MaxTraceLen, Stubs: ex.stubsUsed, LockEdges: ex.LockEdges}
+		Samples: ex.Samples, Complete: complete, MaxTraceLen: ex.MaxTraceLen, Stubs: ex.stubsUsed, LockEdges: ex.LockEdges, VMOnly: ex.vmOnly}
 	for _, l := range ex.violOrder {
 		r.Violations = append(r.Violations, ex.Violations[l])
 	}
